@@ -275,6 +275,8 @@ class Gen:
             site["kind"], site["fn"] = "logic", fn
             site["args"] = [self.any_ref()] if fn == "not" else [self.any_ref(), self.any_ref()]
             self.anys.append(r_site(j))
+        if site["unpack"] and rng.random() < 0.4:
+            site["declunpack"] = True       # @xn(unpack_to=n) instead of twz_unpack_to=n at the call
         if site["kind"] in ("call", "logic"):
             site["active"] = flag
         if site["active"]["c"] != "none":
